@@ -1,4 +1,9 @@
-"""c13 — decided by the per-construct contracts on extract_visitor (contracts/nast_flow.py) and the table lemmas"""
-import contracts.nast_flow  # noqa
+"""C13 — the analysis depends on program structure, not on layout"""
+import contracts.positions  # noqa
+import contracts.nast_flow  # noqa  (every per-construct obligation is discharged with symbolic positions)
+from contracts import tables  # noqa
 
-INFO = {'not_decided': [], 'stated_lemmas': ['composition lemma (DESIGN 2.2)'], 'trusted': []}
+INFO = {'not_decided': ['correspondence of diagnostics order (follows region registration order; not separately stated)'],
+        'stated_lemmas': ['positions are consulted only through Location.__lt__, bisect, insort, get_expr_end, get_first_body_node_loc and np '
+                          '(frame scan): an obligation discharged with symbolic positions constrained only by token order holds for every layout'],
+        'trusted': []}
